@@ -600,8 +600,16 @@ def t_cpp_d(facts, res, tier):
     res.inst(key, True, {"body": t[:200]})
     if len(calls) != 1:
         res.fail(key, facts.where(fn, found), "each -D option must reach Context::define exactly once")
-    if "splitn(2,'=')" not in t.replace('"', "'").replace(" ", ""):
-        res.fail(key, facts.where(fn, found), "-D NAME=VALUE is not split at the first `=`")
+    first_eq = False
+    for c in walk(found["body"]):
+        if c.get("k") == "mcall" and c.get("args"):
+            at = [expr_text(a).replace('"', "'").replace(" ", "") for a in c["args"]]
+            if c["method"] == "splitn" and at == ["2", "'='"]:
+                first_eq = True
+            if c["method"] == "split_once" and at == ["'='"]:
+                first_eq = True
+    if not first_eq:
+        res.fail(key, facts.where(fn, found), "-D NAME=VALUE is not split at the first `=` only (splitn(2, '=') / split_once('=')): a value holding `=` itself (`-DSAME=0==0`) is cut")
     if 'unwrap_or("1")' not in t:
         res.fail(key, facts.where(fn, found), "-D NAME without a value does not default to 1")
     # object-like #define uses the same define()
